@@ -104,7 +104,7 @@ impl Reservoir {
         } else {
             #[cfg(metrics_verif)]
             metrics::__verif::yield_point(1603);
-            let maybe_idx = fastrand(idx);
+            let maybe_idx = fastrand(idx + 1);
             if maybe_idx < self.values.len() {
                 self.values[maybe_idx].store(value.to_bits(), Relaxed);
             }
